@@ -62,9 +62,9 @@ func classify(s *Spec, t *Taint, inMark bool) {
 	}
 	N := func(i int) { mark(t.Neutral, s.S[i]) }
 	switch s.K {
-	case "new", "wrap", "withmsg", "wrapferr", "newfwerr":
+	case "new", "wrap", "withmsg", "wrapferr", "newfwerr", "wrapfgosyntax", "handledmsgf0":
 		Sf(0)
-	case "newf", "assertf", "wrapf", "withmsgf", "safedetails", "assertwrap", "newfw", "newfwsuffix":
+	case "newf", "assertf", "wrapf", "withmsgf", "safedetails", "assertwrap", "newfw", "newfwsuffix", "handledmsgf", "handledsafemsg":
 		Sf(0)
 		U(1)
 		Sf(2)
@@ -72,7 +72,10 @@ func classify(s *Spec, t *Taint, inMark bool) {
 		U(0)
 		Sf(1)
 		Sf(2)
-	case "domnew", "goerr", "pkgnew", "grpcstatus", "gogostatus", "unknownnet", "uleafptr", "uleafval", "uleafnc", "uleaffmtold", "rleaf", "risleaf", "uoptleaf",
+	case "gogostatus":
+		U(0)
+		U(1)
+	case "domnew", "goerr", "pkgnew", "grpcstatus", "unknownnet", "uleafptr", "uleafval", "uleafnc", "uleaffmtold", "rleaf", "risleaf", "uoptleaf",
 		"hint", "detail", "handledmsg", "goerrorf", "goerrorfsuffix", "pkgmsg", "pkgwrap", "uwrapnofmt", "uwrapcause", "uwrapsuffix", "uwrapoverride", "uopt", "uwrapfmtold", "rwrapfull", "uwrapasself", "uleafas",
 		"goerrorfmulti", "umulti", "rmulti", "umulticause", "umulticauser":
 		U(0)
@@ -110,10 +113,8 @@ func classify(s *Spec, t *Taint, inMark bool) {
 			switch s.I[i] {
 			case 0:
 				U(2*i + 1)
-			case 2:
-				Sf(2*i + 1) // a value the caller declared safe
-			default:
-				N(2*i + 1) // not used, or only its length
+			default: // a SafeString value (kept locally, not claimed after transfer), no value, or only its length
+				N(2*i + 1)
 			}
 		}
 	case "ospath":
